@@ -36,6 +36,12 @@ ASSUMPTIONS = [
     "reattach: the same Cov object is attached to another state (other date within +-6 h, other orbit, given in a "
     "non-rotating frame); from then on the oracle is M C M^T with C the values at that moment, in the frame they are "
     "labelled with, and M built for the new state and date (1 history in 8 starts convert / carry / convert again)",
+    "also varied: time-scale label of the state's date (UTC, TT, TAI, GPS, UT1, TDB - the oracle keeps the UTC date), "
+    "dates next to UTC midnight, the turn of the year and 130-900 s from leap-second midnights, the matrix given as "
+    "float64 array / list of lists / python ints / float32 / non-contiguous view / Fortran order / another Cov (and not "
+    "kept by reference), state held in keplerian_mean / equinoctial form, states about another central body (sister "
+    "frames of vf/props/c01.py: only QSW / TNW and the own frame), clones by copy.copy / copy.deepcopy / pickle of the "
+    "state or of the covariance (the clone is sent to QSW/TNW and back; the original must not move)",
     "copy_cov may re-attach the copy to the state (orb.cov = copy), whatever frame the state is in by then",
     "EOP configuration 'zero' on even shards, 'real' on odd shards; dates 1975 .. 2016",
 ]
@@ -223,7 +229,7 @@ def _make_c0(spec):
 
 
 def fname(f):
-    return f if isinstance(f, str) else f.name
+    return f if isinstance(f, str) else getattr(f, "name", repr(f))
 
 
 class Model:
@@ -245,6 +251,10 @@ class Model:
         self.visited_other = False
         self.rotating_seen = False
         self.nt = False
+        # The library evaluates the Earth's rotation from a single-float Julian date (resolution 4e-5 s): the same
+        # instant under another time-scale label rounds differently, i.e. Earth-fixed axes turned by up to
+        # omega x 5e-5 s = 3.6e-9 rad.  Allowed only when a label other than UTC is in play.
+        self.slack = 0.0
 
     def reattach(self, c, date, start, C, label):
         """the covariance object, holding values C labelled `label`, now belongs to another state"""
@@ -346,9 +356,10 @@ def check_cov(model, cov, F, step, what="covariance", worst=None):
     S = np.outer(s, s)
     err = float(np.max(np.abs(C - E) / S))
     rel = float(np.linalg.norm(C - E) / np.linalg.norm(E))
+    vtol = 1e-9 + 2 * model.slack * (1 if model.rotating_seen else 0)
     if worst is not None:
-        worst[0] = max(worst[0], err / 1e-9)
-    if err > 1e-9:
+        worst[0] = max(worst[0], err / vtol)
+    if err > vtol:
         i, j = np.unravel_index(np.argmax(np.abs(C - E) / S), (6, 6))
         raise Violation("cov-values", f"{what} in {F} differs from M C0 M^T (M from the pristine {model.start} state): "
                         f"relative norm {rel:.3g}, worst entry [{i},{j}] = {C[i, j]!r} vs {E[i, j]!r} [{where}]",
@@ -385,7 +396,7 @@ def check_state(model, orb, form, step, what="state"):
     d = max(float(np.linalg.norm(got[:3] - ref[:3]) / np.linalg.norm(ref[:3])),
             float(np.linalg.norm(got[3:] - ref[3:]) / np.linalg.norm(ref[3:])))
     k = 1.0 if form == "cartesian" else 100.0 / abs(1 - model.case["el"]["e"]) / math.sin(model.case["el"]["i"])
-    if not d <= 1e-9 * k:
+    if not d <= 1e-9 * k + (model.slack if model.state_frame in ROTATING else 0.0):
         raise Violation("state-changed", f"{what} = {got.tolist()}, the pristine state expressed in {model.state_frame} is "
                         f"{ref.tolist()} [{where}]", step=step)
 
@@ -404,6 +415,8 @@ def check_history(case):
     scale = case.get("scale", "UTC")
     # same instant, other time-scale label (the oracle keeps the UTC-labelled date)
     lib_date = model.date if scale == "UTC" else model.date.change_scale(scale)
+    if scale != "UTC" or any(op.get("scale", "UTC") != "UTC" for op in case["ops"]):
+        model.slack = 4e-9
     orb = StateVector(model.c, lib_date, "cartesian", model.start)
     if form != "cartesian":
         orb = orb.copy(form=form)
